@@ -58,12 +58,15 @@ Proof.
   apply find_some in E as [Hin Hk]. apply beqs_eq in Hk. subst k.
   pose proof (proj1 (forallb_forall _ _) lower_tab_clean e Hin) as H. apply andb_prop in H as [H1 H2]. rewrite H1, H2. reflexivity.
 Qed.
-Lemma map_case_cleanb : forall f s, cleanb (map_case f lower_tab to_ascii_lower s) = cleanb s.
+Lemma map_case_cleanb : forall f before s, cleanb (map_case f true lower_tab to_ascii_lower before s) = cleanb s.
 Proof.
-  induction f as [|f IH]; intro s; [reflexivity|]. destruct s as [|c r]; [reflexivity|]. cbn [map_case].
+  induction f as [|f IH]; intros before s; [reflexivity|]. destruct s as [|c r]; [reflexivity|]. cbn [map_case].
   destruct (N.ltb c 128).
   - unfold cleanb in *. cbn [forallb]. rewrite IH, lower_char_clean. reflexivity.
-  - rewrite cleanb_app, tab_find_clean, IH, <- cleanb_app, firstn_skipn. reflexivity.
+  - cbv zeta. rewrite cleanb_app, IH.
+    transitivity (cleanb (firstn (seq_len c) (c :: r)) && cleanb (skipn (seq_len c) (c :: r))); [|rewrite <- cleanb_app, firstn_skipn; reflexivity].
+    f_equal. cbn [andb]. destruct (beqs (firstn (seq_len c) (c :: r)) SIGMA) eqn:E; [|apply tab_find_clean].
+    apply beqs_eq in E. rewrite E. destruct (ci_then_cased before && negb (ci_then_cased _)); reflexivity.
 Qed.
 Lemma ulower_cleanb s : cleanb (ulower s) = cleanb s.
 Proof. unfold ulower. destruct (is_ascii s); [apply lower_cleanb|apply map_case_cleanb]. Qed.
